@@ -1161,7 +1161,7 @@ impl Loader {
         //
         // The `LockFile` ensures cleanup on drop, and stale locks from killed
         // processes are detected via a timeout in `wait_for_removal`.
-        if recompile {
+        while recompile {
             let parent_path = lock_path.parent().unwrap();
             fs::create_dir_all(parent_path)
                 .map_err(|e| LoaderError::IO(IoError::new(e, Some(parent_path))))?;
@@ -1197,10 +1197,16 @@ impl Loader {
                         }
                     }
                     // _lock dropped here, removing the lock file.
+                    break;
                 }
                 // Another thread/process is compiling (or a previous run
-                // crashed and left a stale lock). Wait for it to finish.
-                None => LockFile::wait_for_removal(&lock_path, Duration::from_secs(30))?,
+                // crashed and left a stale lock). Wait for it to finish, then
+                // check that it actually produced an up-to-date library: if its
+                // compilation failed, compile here instead of loading a stale one.
+                None => {
+                    LockFile::wait_for_removal(&lock_path, Duration::from_secs(30))?;
+                    recompile = needs_recompile(&output_path, &paths_to_check)?;
+                }
             }
         }
 
